@@ -69,7 +69,7 @@ def main(tier):
         PROP,
         "props.c03",
         tier,
-        7500,
+        9500,
         40000,
         rule_text="one evaluation per monitored fix run from the finite universe; non-trivial = at least one rule changed the text (lexers agree); per-class application counts in monitor_totals.class_counts; plus the exhaustive docs-vs-metadata comparison (docs_vs_metadata)",
         assumptions=["documented class of a rule = icon line in docs/*_rules.rst parsed at run time", "independent lexer for lexeme kinds"],
